@@ -198,21 +198,29 @@ def beginContinue (st : Story) (isAsync : Bool) : Story :=
     else st
   { st with sawUnsafe := false }
 
-/-- The block executed when the line is finished or the story cannot go on:
-    rewind, diagnostics, close the observation batch.  Returns the story and
-    the changed variables with their values (`none` = the Rust panic of
-    `complete_variable_observation`). -/
-def finishContinue (st : Story) : Option (Story × List (String × Val)) :=
+/-- First half of the block executed when the line is finished or the story
+    cannot go on: rewind to the snapshot, "ran out of content" diagnostics,
+    clear the per-continue flags. -/
+def prepareFinish (st : Story) : Story :=
   let st2 := if st.snapshot.isSome then st.restoreSnapshot else st
   let st3 := if !st2.canContinue then st2.endChecks else st2
-  let st4 := { (st3.mapCore (fun c => { c with didSafeExit := false })) with sawUnsafe := false }
-  if st4.recCount == 1 then
-    let (names, vars') := st4.core.vars.completeObservation
+  { (st3.mapCore (fun c => { c with didSafeExit := false })) with sawUnsafe := false }
+
+/-- Second half: the outermost continue closes the observation batch and
+    collects the changed variables with their current values (`none` = the Rust
+    panic of `complete_variable_observation`); the async flag is cleared. -/
+def closeObservation (st : Story) : Option (Story × List (String × Val)) :=
+  if st.recCount == 1 then
+    let (names, vars') := st.core.vars.completeObservation
     if names.all (fun n => (vars'.get n).isSome) then
-      some ({ (st4.mapCore (fun c => { c with vars := vars' })) with asyncActive := false },
+      some ({ (st.mapCore (fun c => { c with vars := vars' })) with asyncActive := false },
             names.filterMap (fun n => (vars'.get n).map (fun v => (n, v))))
     else none
-  else some ({ st4 with asyncActive := false }, [])
+  else some ({ st with asyncActive := false }, [])
+
+/-- The block executed when the line is finished or the story cannot go on. -/
+def finishContinue (st : Story) : Option (Story × List (String × Val)) :=
+  st.prepareFinish.closeObservation
 
 /-- Delivery of errors and warnings at the end of `continue_internal`. -/
 def deliver (st : Story) : Out Unit × Story :=
